@@ -33,9 +33,10 @@ const rpcCfg = `CONSTANTS
   W = 8
   Wrap = %s
   WithHist = %s
+  OffsetIntoStored = %s
 INIT Init
 NEXT Next
-INVARIANTS AscPagesPartition DescPagesPartition PageBounded BeyondEndEmpty Emit
+INVARIANTS AscPagesPartition DescPagesPartition PageBounded BeyondEndEmpty FilteredPagesPartition Emit
 CHECK_DEADLOCK FALSE
 `
 
@@ -93,19 +94,24 @@ func C18(run *core.Run) {
 		"hostile JSON-RPC requests are sampled inside classes and sent to a real rpc/server in a child process",
 	}
 	walk.LabConstants()
-	res, err := core.RunTLC(core.TLCOpts{Module: "Rpc", CfgText: fmt.Sprintf(rpcCfg, "FALSE", "FALSE"), Timeout: 5 * time.Minute})
+	res, err := core.RunTLC(core.TLCOpts{Module: "Rpc", CfgText: fmt.Sprintf(rpcCfg, "FALSE", "FALSE", "FALSE"), Timeout: 5 * time.Minute})
 	if err != nil || res.Violated != "" || res.Err != "" {
 		core.Fatal("Rpc: %v %s %s", err, res.Violated, res.Err)
 	}
 	run.States += res.Distinct
 	run.Transitions += res.Generated
-	nc, err := core.RunTLC(core.TLCOpts{Module: "Rpc", CfgText: fmt.Sprintf(rpcCfg, "TRUE", "FALSE"), Timeout: 5 * time.Minute})
+	nc, err := core.RunTLC(core.TLCOpts{Module: "Rpc", CfgText: fmt.Sprintf(rpcCfg, "TRUE", "FALSE", "FALSE"), Timeout: 5 * time.Minute})
 	if err != nil || nc.Violated == "" {
 		core.Fatal("negative control (index*size computed in a wrapping word, F14) not refuted")
 	}
-	run.Set("negative_controls", []string{"page start computed in a wrapping word (code as found, F14) -> TLC refutes " + nc.Violated})
+	nh, err := core.RunTLC(core.TLCOpts{Module: "Rpc", CfgText: fmt.Sprintf(rpcCfg, "FALSE", "FALSE", "TRUE"), Timeout: 5 * time.Minute})
+	if err != nil || nh.Violated != "FilteredPagesPartition" {
+		core.Fatal("negative control (page range of the listed entries cut out of the stored list) not refuted: %v %s", err, nh.Violated)
+	}
+	run.Set("negative_controls", []string{"page start computed in a wrapping word (code as found, F14) -> TLC refutes " + nc.Violated,
+		"a list with holes: page range computed on the listed entries, cut out of the stored ones -> TLC refutes " + nh.Violated})
 	var cells []rpcCell
-	_, err = core.RunTLC(core.TLCOpts{Module: "Rpc", CfgText: fmt.Sprintf(rpcCfg, "FALSE", "TRUE"), Workers: 1, Timeout: 5 * time.Minute,
+	_, err = core.RunTLC(core.TLCOpts{Module: "Rpc", CfgText: fmt.Sprintf(rpcCfg, "FALSE", "TRUE", "FALSE"), Workers: 1, Timeout: 5 * time.Minute,
 		OnLine: func(line string) {
 			if js, ok := core.ParseB(line, "B"); ok {
 				var c rpcCell
@@ -267,6 +273,7 @@ func C18(run *core.Run) {
 	run.Traces += int64(extra)
 	// embedded lists: stake entries page by page = all at once, in the documented order
 	c18Embedded(run, p)
+	c18Paging(run)
 	// JSON round trip of every account block of the history
 	blocks := 0
 	for h := uint64(2); h <= p.Height(); h++ {
